@@ -25,7 +25,9 @@
 (* GenerateIntermediate hands out metadata with no controllers, no models, *)
 (* no imports, and assigns no serial.                                      *)
 (*                                                                         *)
-(* The three BOOLEAN constants switch single mechanisms off; TLC then      *)
+(*   - every build walks the files the controller globs matched, not the   *)
+(*     files of packages loaded since (PackagesFacade.GetAllSourceFiles).  *)
+(* The four BOOLEAN constants switch single mechanisms off; TLC then       *)
 (* shows the corresponding invariant violated (vacuity guards).            *)
 (***************************************************************************)
 EXTENDS Naturals, Sequences, TLC
@@ -33,7 +35,8 @@ EXTENDS Naturals, Sequences, TLC
 CONSTANTS MaxLen,            \* bound on the length of a history
           GraphIdempotent,   \* a repeated GenerateGraph leaves the graph as it is
           CacheTransparent,  \* metadata computed over cache hits equals freshly computed metadata
-          SerialsMemoised    \* a symbol keeps the import serial it was given first
+          SerialsMemoised,   \* a symbol keeps the import serial it was given first
+          ScopeFixed         \* a build visits the files controllerGlobs matched - not whatever has been loaded since
 
 PipeCalls == {"GenerateGraph", "Validate", "GenerateIntermediate", "Run"}
 Calls     == PipeCalls \cup {"GenerateSpec"}
@@ -47,6 +50,7 @@ vars == <<hist, st, out>>
 New == [built   |-> FALSE,        \* has the graph been built
         builds  |-> 0,            \* number of graph builds (capped at 2: only "again" matters)
         graph   |-> "empty",      \* "empty" | "G0" | "grown"
+        loaded  |-> FALSE,        \* packages beyond the globs have been loaded (whole, lazily, for imported model types)
         warm    |-> FALSE,        \* MetadataCache populated: the next visit is served from it
         serials |-> "unassigned", \* "unassigned" | "S0" | "drifted"
         gi      |-> 0,            \* number of reductions done on a built graph (capped at 2)
@@ -55,9 +59,11 @@ New == [built   |-> FALSE,        \* has the graph been built
 Cap2(n) == IF n >= 2 THEN 2 ELSE n
 
 \* --- the three stages ---------------------------------------------------------------------------------------
-Build(s) == [s EXCEPT !.built = TRUE, !.builds = Cap2(s.builds + 1), !.warm = TRUE,
+\* the first build resolves the routes' types and thereby loads the packages they live in; a later build that walked those
+\* packages' files too would meet declarations the first one never saw
+Build(s) == [s EXCEPT !.built = TRUE, !.builds = Cap2(s.builds + 1), !.warm = TRUE, !.loaded = TRUE,
                       !.graph = IF ~s.built THEN "G0"
-                                ELSE IF GraphIdempotent THEN s.graph ELSE "grown"]
+                                ELSE IF GraphIdempotent /\ (ScopeFixed \/ ~s.loaded) THEN s.graph ELSE "grown"]
 
 \* token of the metadata a reduction of state s hands out, and the serial map after it
 SerialsAfter(s) == IF ~s.built THEN s.serials
